@@ -1,2 +1,4 @@
 import AferoVerif.Props.C02
+import AferoVerif.Props.C17
 import AferoVerif.Engine.MemFile
+import AferoVerif.Engine.Contains
